@@ -68,6 +68,7 @@ type Result struct {
 	Violations []Viol            `json:"violations"`
 	Notices    []string          `json:"notices"`
 	Error      string            `json:"error"`
+	BatchSize  int               `json:"batch_size,omitempty"`
 }
 
 // ---- the transformation grammar on text -------------------------------------------------------
@@ -160,6 +161,11 @@ func embeddings(tier string) [][]string {
 		}
 	}
 	return out
+}
+
+// the single transformations of the quick tier
+func isQuickSingle(ops []string) bool {
+	return len(ops) == 1 && (ops[0] == "P3" || ops[0] == "C" || ops[0] == "A")
 }
 
 func allowed(embed string, ops []string) bool {
@@ -262,42 +268,39 @@ func errString(e error) string {
 	return s
 }
 
-type job struct {
-	c    *Case
-	embs [][]string // one: single lint; several: one batched lint (single-file cases only)
+// one lint call: either one case under one embedding (all its files), or many (case, embedding) pairs of
+// single-file cases of the same rule and configuration, each copy in a directory of its own
+type item struct {
+	c   *Case
+	emb int // index into the case's embedding list
 }
 
-func runJob(j job, emit func(Result)) {
-	c := j.c
-	if len(j.embs) == 1 {
-		ops := j.embs[0]
-		files := map[string]string{}
-		for _, f := range c.Files {
-			files[f.Name] = applyOps(f.Text, ops)
-		}
-		vs, ns, err := lintFiles(c, files)
-		emit(Result{ID: c.ID, Emb: ops, Mode: "single", Texts: files, Violations: vs, Notices: ns, Error: errString(err)})
-		return
+type job struct {
+	items []item
+	batch bool
+}
+
+type plan struct {
+	c     *Case
+	embs  [][]string
+	texts []map[string]string // per embedding
+	rep   []int               // per embedding: index of the first embedding with identical texts
+}
+
+func textsKey(m map[string]string) string {
+	names := make([]string, 0, len(m))
+	for n := range m {
+		names = append(names, n)
 	}
-	// batched: the one file of the case once per embedding, each in a directory of its own
-	files := map[string]string{}
-	names := make([]string, len(j.embs))
-	for i, ops := range j.embs {
-		names[i] = fmt.Sprintf("e%04d/%s", i, c.Files[0].Name)
-		files[names[i]] = applyOps(c.Files[0].Text, ops)
+	sort.Strings(names)
+	var b strings.Builder
+	for _, n := range names {
+		b.WriteString(n)
+		b.WriteByte(0)
+		b.WriteString(m[n])
+		b.WriteByte(0)
 	}
-	vs, ns, err := lintFiles(c, files)
-	for i, ops := range j.embs {
-		r := Result{ID: c.ID, Emb: ops, Mode: "batch", Texts: map[string]string{c.Files[0].Name: files[names[i]]},
-			Notices: ns, Error: errString(err), Violations: []Viol{}}
-		for _, v := range vs {
-			if v.File == names[i] {
-				v.File = c.Files[0].Name
-				r.Violations = append(r.Violations, v)
-			}
-		}
-		emit(r)
-	}
+	return b.String()
 }
 
 func main() {
@@ -316,43 +319,78 @@ func main() {
 	tier := os.Args[3]
 	_ = hutil.SeedFromEnv() // the enumeration is exhaustive over the table x grammar: nothing is drawn at random here
 	embs := embeddings(tier)
+	// an embedding gets a lint call of its own ("solo") when it is the identity (quick), or the identity or one
+	// of P3 / C / A (thorough), and always for cases that cannot be batched; the rest is batched per rule
+	soloDepth := 0
+	if tier != "quick" {
+		soloDepth = 1
+	}
+	plans := make([]*plan, len(cases))
 	var jobs []job
+	groups := map[string][]item{}
+	var groupOrder []string
 	for i := range cases {
 		c := &cases[i]
 		list := embs
 		if tier == "replay" || len(c.Embeddings) > 0 {
 			list = c.Embeddings
 		}
-		var rest [][]string
+		p := &plan{c: c}
+		seen := map[string]int{}
 		for _, ops := range list {
 			if !allowed(c.Embed, ops) {
 				continue
 			}
-			// identity and single transformations: always a lint of their own (the statement is about linting one policy)
-			if len(ops) <= 1 || !c.Batch || len(c.Files) != 1 {
-				jobs = append(jobs, job{c, [][]string{ops}})
-			} else {
-				rest = append(rest, ops)
+			files := map[string]string{}
+			for _, f := range c.Files {
+				files[f.Name] = applyOps(f.Text, ops)
 			}
+			k := textsKey(files)
+			idx := len(p.embs)
+			p.embs = append(p.embs, ops)
+			p.texts = append(p.texts, files)
+			if r, ok := seen[k]; ok {
+				p.rep = append(p.rep, r)
+				continue
+			}
+			seen[k] = idx
+			p.rep = append(p.rep, idx)
 		}
-		// compositions: one lint call over all re-embedded copies (non-aggregate rules only, see c08.py);
-		// the single transformations ride along again so that batch and single verdicts can be compared
-		if len(rest) > 0 {
-			for _, ops := range list {
-				if len(ops) == 1 && allowed(c.Embed, ops) {
-					rest = append(rest, ops)
-				}
+		plans[i] = p
+		gk := c.Category + "/" + c.Rule + "\x00" + c.ConfigYAML
+		for e := range p.embs {
+			if p.rep[e] != e {
+				continue
 			}
-			const chunk = 64
-			for s := 0; s < len(rest); s += chunk {
-				e := s + chunk
-				if e > len(rest) {
-					e = len(rest)
+			batchable := c.Batch && len(c.Files) == 1 && tier != "replay"
+			solo := !batchable || len(p.embs[e]) == 0 || (soloDepth == 1 && isQuickSingle(p.embs[e]))
+			if solo {
+				jobs = append(jobs, job{items: []item{{c, e}}})
+			}
+			// non-solo embeddings are batched; in the thorough tier the solo single transformations ride along
+			// a second time so that batched and solo verdicts can be compared
+			if batchable && (!solo || len(p.embs[e]) == 1) {
+				if _, ok := groups[gk]; !ok {
+					groupOrder = append(groupOrder, gk)
 				}
-				jobs = append(jobs, job{c, rest[s:e]})
+				groups[gk] = append(groups[gk], item{c, e})
 			}
 		}
 	}
+	const chunk = 48
+	for _, gk := range groupOrder {
+		its := groups[gk]
+		for s := 0; s < len(its); s += chunk {
+			e := s + chunk
+			if e > len(its) {
+				e = len(its)
+			}
+			jobs = append(jobs, job{items: its[s:e], batch: true})
+		}
+	}
+	// heavier jobs first
+	sort.SliceStable(jobs, func(i, j int) bool { return len(jobs[i].items) > len(jobs[j].items) })
+
 	out := hutil.NewOut(os.Args[2])
 	var mu sync.Mutex
 	emit := func(r Result) {
@@ -366,6 +404,35 @@ func main() {
 		out.Emit(r)
 		mu.Unlock()
 	}
+	runJob := func(j job) {
+		if !j.batch {
+			it := j.items[0]
+			p := plans[it.c.ID]
+			vs, ns, err := lintFiles(it.c, p.texts[it.emb])
+			emit(Result{ID: it.c.ID, Emb: p.embs[it.emb], Mode: "single", Texts: p.texts[it.emb], Violations: vs,
+				Notices: ns, Error: errString(err)})
+			return
+		}
+		files := map[string]string{}
+		names := make([]string, len(j.items))
+		for i, it := range j.items {
+			names[i] = fmt.Sprintf("b%04d_%04d/%s", it.c.ID, it.emb, it.c.Files[0].Name)
+			files[names[i]] = plans[it.c.ID].texts[it.emb][it.c.Files[0].Name]
+		}
+		vs, ns, err := lintFiles(j.items[0].c, files)
+		for i, it := range j.items {
+			p := plans[it.c.ID]
+			r := Result{ID: it.c.ID, Emb: p.embs[it.emb], Mode: "batch", Texts: p.texts[it.emb], Notices: ns,
+				Error: errString(err), BatchSize: len(j.items)}
+			for _, v := range vs {
+				if v.File == names[i] {
+					v.File = it.c.Files[0].Name
+					r.Violations = append(r.Violations, v)
+				}
+			}
+			emit(r)
+		}
+	}
 	workers := runtime.GOMAXPROCS(0)
 	ch := make(chan job)
 	var wg sync.WaitGroup
@@ -374,7 +441,7 @@ func main() {
 		go func() {
 			defer wg.Done()
 			for j := range ch {
-				runJob(j, emit)
+				runJob(j)
 			}
 		}()
 	}
@@ -383,5 +450,13 @@ func main() {
 	}
 	close(ch)
 	wg.Wait()
+	// embeddings whose texts equal an earlier embedding's: no lint of their own
+	for _, p := range plans {
+		for e := range p.embs {
+			if p.rep[e] != e {
+				out.Emit(map[string]any{"id": p.c.ID, "emb": p.embs[e], "mode": "dup", "dup_of": p.embs[p.rep[e]]})
+			}
+		}
+	}
 	out.Close()
 }
